@@ -268,6 +268,54 @@ Theorem C18_inner_test_at_token :
 Proof. exact RejectFacts.inner_test_rejected. Qed.
 Print Assumptions C18_inner_test_at_token.
 
+(* malformed test lists (later positions): reported at the token that cannot continue the list *)
+Theorem C18_test_list_later_at_token :
+  forall T : tables,
+  twf_tables T = true ->
+  forall (text : bytes) (pre : list token) (tn tl lp : token) (ttoks cm : list token)
+    (t : token) (rest : list token) (L : list bytes) (prev : option bytes) 
+    (k : nat) (d : cmddef) (a : argdef) (dl : cmddef) (al : argdef) 
+    (ts : list gtest) (ns : list node),
+  wf_prefix T (map strip_pos pre) L prev k ->
+  fst (lex text) = pre ++ tn :: tl :: lp :: ttoks ++ cm ++ t :: rest ->
+  t_kind tn = TIdentifier ->
+  get_command_instance T L (t_val tn) = inl d ->
+  d_type d = CControl ->
+  d_accept_children d = true ->
+  d_args d = [a] ->
+  is_t1 a = true ->
+  t_kind tl = TIdentifier ->
+  get_command_instance T L (t_val tl) = inl dl ->
+  d_type dl = CTest ->
+  d_args dl = [al] ->
+  is_tl al = true ->
+  d_expected_first dl = Some [TLeftParen] ->
+  t_kind lp = TLeftParen ->
+  ts <> [] ->
+  Forall2 (wf_test T L) ts ns ->
+  map strip_pos ttoks = toks_tests ts ->
+  cm = [] \/ (exists c : token, cm = [c] /\ strip_pos c = mk TComma [44%N]) ->
+  not_comment (t_kind t) = true ->
+  match cm with
+  | [] =>
+      kind_mem (t_kind t) [TComma; TRightParen] = false ->
+      parse T text = Reject EExpected (t_pos t) (Datatypes.length (t_val t))
+  | _ :: _ =>
+      match t_kind t with
+      | TIdentifier =>
+          match get_command_instance T L (t_val t) with
+          | inl d' =>
+              d_type d' <> CTest ->
+              parse T text =
+              Reject (ENotTest (d_name d')) (t_pos t) (Datatypes.length (t_val t))
+          | inr e => parse T text = Reject e (t_pos t) (Datatypes.length (t_val t))
+          end
+      | _ => parse T text = Reject EExpected (t_pos t) (Datatypes.length (t_val t))
+      end
+  end.
+Proof. exact RejectFacts.test_list_later_rejected. Qed.
+Print Assumptions C18_test_list_later_at_token.
+
 (* a tag the test does not take / whose extension is not loaded, an ill-typed value in a test: reported at that token *)
 Theorem C18_test_argument_at_token :
   forall T : tables,
